@@ -27,6 +27,7 @@ type c10case struct {
 	Blocks [][]int `json:"blocks"` // bgzf: per Write+Flush the data (empty list = Flush without data)
 	Level  int     `json:"level"`
 	Wc     int     `json:"wc"`
+	Split  []int   `json:"split"` // bam: re-block the uncompressed stream with a Flush at these offsets (negative: relative to the start of the last record)
 	Recs   []int   `json:"recs"`  // bam: per record the sequence length; negative = Flush after the record
 	Rd     int     `json:"rd"`
 	Muts   [][]int `json:"muts"` // [0, n] truncate to n bytes; [1, pos, val] substitute
@@ -103,7 +104,40 @@ func c10buildBam(c c10case) ([]byte, []string) {
 	}
 	w.Close()
 	bgw.Close()
-	return buf.Bytes(), want
+	if len(c.Split) == 0 {
+		return buf.Bytes(), want
+	}
+	// Same BAM data, other block boundaries: decompress (compress/gzip,
+	// multistream) and write again with a Flush at each requested offset.
+	zr, err := gzip.NewReader(bytes.NewReader(buf.Bytes()))
+	if err != nil {
+		panic(err)
+	}
+	flat, err := io.ReadAll(zr)
+	if err != nil {
+		panic(err)
+	}
+	lay := c10layout(buf.Bytes(), true)
+	recb := lay["recbounds"].([]int)
+	lastStart := recb[len(recb)-2]
+	var out bytes.Buffer
+	w2, _ := bgzf.NewWriterLevel(&out, c.Level, c.Wc)
+	prev := 0
+	for _, sp := range c.Split {
+		if sp < 0 {
+			sp = lastStart - sp
+		}
+		if sp <= prev || sp >= len(flat) {
+			continue
+		}
+		w2.Write(flat[prev:sp])
+		w2.Flush()
+		w2.Wait()
+		prev = sp
+	}
+	w2.Write(flat[prev:])
+	w2.Close()
+	return out.Bytes(), want
 }
 
 func c10mutate(stream []byte, m []int) []byte {
